@@ -206,10 +206,22 @@ def _needs_local(pname, arg, body_nodes):
                 uses += 1
                 in_loop = in_loop or lp
             for c in ast.iter_child_nodes(n):
-                stack.append((c, lp or isinstance(
+                inner = lp or isinstance(
                     n, (ast.For, ast.While, ast.ListComp, ast.SetComp,
                         ast.DictComp, ast.GeneratorExp, ast.Lambda,
-                        ast.FunctionDef))))
+                        ast.FunctionDef))
+                # the iterable of a for loop / of the first generator of a
+                # comprehension is evaluated once, before the iteration
+                if isinstance(n, ast.For) and c is n.iter:
+                    inner = lp
+                if isinstance(n, (ast.ListComp, ast.SetComp, ast.DictComp,
+                                  ast.GeneratorExp)) and n.generators and \
+                        c is n.generators[0] :
+                    # handled one level below (comprehension node)
+                    inner = lp
+                if isinstance(n, ast.comprehension) and c is n.iter:
+                    inner = lp
+                stack.append((c, inner))
     return uses != 1 or in_loop
 
 
